@@ -313,8 +313,60 @@ def gen_x7(thorough):
                 yield 'X7:foreach', pre + 'x = []\nforeach %s : [%s]\n  x += [%s]\nendforeach\n' % (n, vb, n)
 
 
+# X8: every kind of value, the "empty" ones first (0, false, '', [], {}), stored in a container / variable and read back through
+# every read path, with and without a fallback; and dictionary keys that are also names meson itself uses (kwargs, args, ...)
+X8_VALUES = ['0', 'false', "''", '[]', '{}', '1', 'true', "'a'", '[0]', "{'a': 0}", '-1', "[[]]"]
+X8_FALLBACKS = [None, '0', '7', "'fb'", 'true', 'false', '[]', "['x']", '{}']
+X8_KEYS = ['kwargs', 'args', 'required', 'native', 'if', 'true', '', ' ', '0', 'a b', 'KWARGS', 'kwarg']
+
+
+def gen_x8(thorough):
+    keys = 'abcdefghijkl'
+    d = '{%s}' % ', '.join("'%s': %s" % (k, v) for k, v in zip(keys, X8_VALUES))
+    a = '[%s]' % ', '.join(X8_VALUES)
+    n = len(X8_VALUES)
+    pre = 'd = %s\na = %s\n' % (d, a)
+    for i, k in enumerate(list(keys[:n]) + ['z']):
+        for fb in X8_FALLBACKS:
+            yield 'X8:dict.get', pre + "x = d.get('%s'%s)\n" % (k, '' if fb is None else ', ' + fb)
+        yield 'X8:dict.index', pre + "x = d['%s']\n" % k
+        yield 'X8:dict.has_key', pre + "x = d.has_key('%s')\ny = '%s' in d\nw = '%s' not in d\n" % (k, k, k)
+    for i in list(range(-n - 1, n + 1)):
+        for fb in X8_FALLBACKS:
+            yield 'X8:list.get', pre + 'x = a.get(%d%s)\n' % (i, '' if fb is None else ', ' + fb)
+        yield 'X8:list.index', pre + 'x = a[%d]\n' % i
+    for v in X8_VALUES:
+        yield 'X8:contains', pre + 'x = a.contains(%s)\ny = %s in a\nw = %s not in a\n' % (v, v, v)
+        yield 'X8:single', 'x = [%s]\ny = x.get(0)\nw = x.get(0, 5)\nu = x[0]\nv = x.length()\n' % v
+        yield 'X8:dictsingle', "x = {'k': %s}\ny = x.get('k')\nw = x.get('k', 5)\nu = x['k']\nv = x.values()\n" % v
+        for fb in X8_FALLBACKS:
+            yield 'X8:get_variable', 'v = %s\nx = get_variable(\'v\'%s)\ny = is_variable(\'v\')\n' % (v, '' if fb is None else ', ' + fb)
+            yield 'X8:get_variable-unset', 'x = get_variable(\'v\'%s)\n' % ('' if fb is None else ', ' + fb)
+        yield 'X8:set_variable', "set_variable('v', %s)\nx = v\ny = get_variable('v', 9)\n" % v
+        yield 'X8:plusassign', 'x = [%s]\nx += [%s]\ny = x.length()\n' % (v, v)
+        yield 'X8:foreach', pre + 'x = []\nforeach e : [%s, %s]\n  x += [e]\nendforeach\n' % (v, v)
+        yield 'X8:foreach-dict', "x = []\nforeach k, e : {'p': %s, 'q': %s}\n  x += [k, e]\nendforeach\n" % (v, v)
+        yield 'X8:ternary-value', 'x = true ? %s : 9\ny = false ? 9 : %s\n' % (v, v)
+        yield 'X8:cond', 'x = 0\nif %s\n  x = 1\nendif\n' % v
+        yield 'X8:eq', 'x = %s == %s\ny = [%s] == [%s]\nw = %s != %s\n' % (v, v, v, v, v, v)
+    yield 'X8:values', pre + 'x = d.values()\ny = d.keys()\nw = d.length()\nv = a.length()\n'
+    yield 'X8:foreach-all', pre + 'x = []\nforeach e : a\n  x += [e]\nendforeach\ny = []\nforeach k, e : d\n  y += [[k, e]]\nendforeach\n'
+    # keys
+    for k in X8_KEYS:
+        for v in X8_VALUES[:8] + ["{'a': 1}", "{'kwargs': 1}"]:
+            yield 'X8:key-literal', "x = {'%s': %s}\ny = x.keys()\nw = x.length()\n" % (k, v)
+            yield 'X8:key-variable', "k = '%s'\nx = {k: %s, 'zz': 1}\ny = x.keys()\nw = x.get(k, 'absent')\n" % (k, v)
+            yield 'X8:key-second', "x = {'aa': 1, '%s': %s}\ny = x.keys()\nw = x['%s']\n" % (k, v, k)
+        yield 'X8:key-plus', "x = {'a': 1} + {'%s': {'b': 2}}\ny = x.keys()\n" % k
+        yield 'X8:key-plusassign', "x = {'a': 1}\nx += {'%s': {'b': 2}}\ny = x.keys()\n" % k
+        yield 'X8:key-twice', "x = {'%s': 1, '%s': 2}\n" % (k, k)
+        yield 'X8:key-nested', "x = {'o': {'%s': {'%s': 1}}}\ny = x['o']['%s'].keys()\n" % (k, k, k)
+        yield 'X8:key-in-array', "x = [{'%s': [1]}]\ny = x[0].keys()\n" % k
+
+
+
 FAMILIES = {'x1': gen_x1, 'x1s': gen_x1_short, 'x2': gen_x2, 'x3': gen_x3, 'x4': gen_x4, 'x5': gen_x5, 'x5s': gen_x5s, 'x6': gen_x6,
-            'x7': gen_x7}
+            'x7': gen_x7, 'x8': gen_x8}
 
 # ------------------------------------------------------------------------------------------------------------
 _pool = None
@@ -740,7 +792,7 @@ def main():
         sys.exit(0 if v in ('ok', 'unspec') else 1)
     fams = [f for f in FAMILIES if ck.want(f)]
     jobs = []
-    nsh = {'x1': 4 * NCPU, 'x1s': NCPU, 'x2': NCPU, 'x3': NCPU, 'x4': NCPU, 'x5': 2 * NCPU, 'x5s': 2 * NCPU, 'x6': 4, 'x7': NCPU}
+    nsh = {'x1': 4 * NCPU, 'x1s': NCPU, 'x2': NCPU, 'x3': NCPU, 'x4': NCPU, 'x5': 2 * NCPU, 'x5s': 2 * NCPU, 'x6': 4, 'x7': NCPU, 'x8': 4}
     for f in fams:
         for s in range(nsh[f]):
             jobs.append((f, s, nsh[f], ck.thorough))
